@@ -436,7 +436,7 @@ PLAUSIBLE = {
     "open": ["EACCES", "ENOSPC", "EMFILE", "EIO", "ENOENT"],
     "mkdir": ["EACCES", "ENOSPC"], "mkdirat": ["EACCES", "ENOSPC"],
     "sendfile": ["EIO", "ENOSPC", "EINVAL"], "write": ["EIO", "ENOSPC"],
-    "close": ["EIO"], "fstat": ["EIO"], "fstatat": ["EIO", "ENOMEM"], "readlinkat": ["EIO", "ENOMEM"],
+    "close": ["EIO"], "fstat": ["EIO"], "fstatat": ["EIO", "ENOMEM", "ENOENT"], "readlinkat": ["EIO", "ENOMEM", "ENOENT"],      # (ENOENT: a queue link removed under the daemon's feet)
     "symlinkat": ["ENOSPC", "EIO"], "unlinkat": ["EIO"], "unlink": ["EIO"], "rmdir": ["EIO"],
     "link": ["EMFILE", "ENOSPC"], "linkat": ["ENOSPC"], "ftruncate": ["EIO"], "scandir": ["ENOMEM", "EIO"],
     "read": ["EIO"], "access": ["EIO"], "fts_open": ["ENOMEM"],
@@ -1202,6 +1202,49 @@ def mon_fault_reported(steps, meta):
     return None
 
 
+def mon_failed_pass_keeps_queue(steps, meta):
+    """C02 / C10: a pass that ends in an error has not taken anything off the queue whose version it did not store: every
+    entry that was pending before it and for which nothing new is in the store is still pending after it"""
+    prev = None
+    between = []
+    for st in steps:
+        if st.op in HANDLER_OPS:
+            between.append(st)
+        if st.dump is None:
+            continue
+        cur = st.dump
+        if prev is not None and st.tag_same_env and len(between) == 1 and between[0].op == "timeout" and between[0].result == "error":
+            left = {(x[1], x[2]) for x in queue_of(cur)}
+            for (_, num, path, m, mt) in queue_of(prev):
+                if (num, path) in left or (m & 1):
+                    continue
+                rel = path[len(CANON_ROOT + "/w/"):]
+                new = [p for p in cur if p.startswith("/k/store/%s/" % rel) and p not in prev]
+                if not new:
+                    return ("the pass failed (%s) and yet took the pending entry of %s off the queue without having stored a version of it: after the restart the write is lost"
+                            % (" <- ".join(unhexs(t.split(":", 1)[1]) for t in (between[0].trace or "").split()[1:])[:160], rel))
+        prev = cur
+        between = []
+    return None
+
+
+def mon_idle_means_empty(steps, meta):
+    """C10 'either still completes the operation or reports an error' for the pass itself: a pass that answers "nothing
+    is pending, wait indefinitely" without an error has left no entry in the queue directory"""
+    if isinstance(meta, dict) and meta.get("scenario") in ("reload_new_queue", "accept_after_queue_move"):
+        return None      # (K3: entries stranded in a queue directory that is no longer in force)
+    for i, st in enumerate(steps):
+        if st.op == "timeout" and st.result == "pause -1":
+            nxt = next((x for x in steps[i + 1:] if x.dump is not None or x.op in HANDLER_OPS), None)
+            if nxt is not None and nxt.dump is not None:
+                q = queue_of(nxt.dump)
+                if q:
+                    return ("the pass answered 'nothing pending' (wait indefinitely) and reported no error, but %d entr%s still in the queue directory (first: %s)%s"
+                            % (len(q), "y is" if len(q) == 1 else "ies are", q[0][2][len(CANON_ROOT):],
+                               " - under %s %s" % (meta.get("callline"), meta.get("errno")) if isinstance(meta, dict) and meta.get("errno") else ""))
+    return None
+
+
 def mon_expected_handled(steps, meta):
     """C10: the expected conditions - source deleted (ENOENT at the open of the source), permission denied (EACCES
     there), name already taken (EEXIST at the exclusive create) - are handled without stopping: the disturbed
@@ -1329,6 +1372,8 @@ def mon_resources(steps, meta):
             loaded = True
         if st.op == "stop":
             loaded = False
+        if st.op in HANDLER_OPS and st.result == "error":
+            return None      # the daemon stops here (main exits): what the script does afterwards is not its life
         if st.x is None or st.result in ("error", "crashed", None):
             continue
         want = 2 if loaded else 0
@@ -1341,7 +1386,7 @@ MONITORS.update({
     "queue_form": mon_queue_form, "journal": mon_journal, "faithful": mon_faithful, "history": mon_history,
     "bursts": mon_bursts, "projects": mon_projects, "recovery": mon_recovery, "no_partial": mon_no_partial,
     "fault_reported": mon_fault_reported, "resources": mon_resources, "expected_handled": mon_expected_handled,
-    "completed_exact": mon_completed_exact, "exec_completed": mon_exec_completed, "accepted_is_queued": mon_accepted_is_queued, "project_quiet": mon_project_quiet, "writes_queued": mon_writes_queued, "post_restart_ok": mon_post_restart_ok, "partial_snapshot": mon_partial_snapshot, "snapshot_members": mon_snapshot_members,
+    "completed_exact": mon_completed_exact, "exec_completed": mon_exec_completed, "accepted_is_queued": mon_accepted_is_queued, "project_quiet": mon_project_quiet, "idle_means_empty": mon_idle_means_empty, "failed_pass_keeps_queue": mon_failed_pass_keeps_queue, "writes_queued": mon_writes_queued, "post_restart_ok": mon_post_restart_ok, "partial_snapshot": mon_partial_snapshot, "snapshot_members": mon_snapshot_members,
 })
 
 
